@@ -2017,6 +2017,10 @@ static void _handle_stream_start(char *name, char **attrs, void *userdata)
     char *id;
     int failed = 0;
 
+    /* the rest of a buffer that made us disconnect is still parsed */
+    if (conn->state == XMPP_STATE_DISCONNECTED)
+        return;
+
     if (conn->stream_id)
         strophe_free(conn->ctx, conn->stream_id);
     conn->stream_id = NULL;
@@ -2053,6 +2057,9 @@ static void _handle_stream_end(char *name, void *userdata)
 
     UNUSED(name);
 
+    if (conn->state == XMPP_STATE_DISCONNECTED)
+        return;
+
     /* stream is over */
     strophe_debug(conn->ctx, "xmpp", "RECV: </stream:stream>");
     /* the session has been terminated properly, i.e. it can't be resumed */
@@ -2066,6 +2073,9 @@ static void _handle_stream_stanza(xmpp_stanza_t *stanza, void *userdata)
     xmpp_conn_t *conn = (xmpp_conn_t *)userdata;
     char *buf;
     size_t len;
+
+    if (conn->state == XMPP_STATE_DISCONNECTED)
+        return;
 
     if (xmpp_stanza_to_text(stanza, &buf, &len) == 0) {
         strophe_debug(conn->ctx, "xmpp", "RECV: %s", buf);
